@@ -87,9 +87,14 @@ class Fn:
         self._defs = None
         self._dom = None
         self.varnames = {}
+        self.upvars = {}   # closure/coroutine captures: field index of _1 -> source name
         for n, p in d['names']:
             if not p['p']:
                 self.varnames.setdefault(p['l'], n)
+            elif p['l'] == 1 and d.get('kind') == 'closure':
+                fl = [x for x in p['p'] if x != '*']
+                if len(fl) == 1 and fl[0].startswith('.'):
+                    self.upvars.setdefault(int(fl[0][1:]), n)
 
     def succs(self, bi):
         t = self.B[bi]['t']
@@ -997,9 +1002,10 @@ class CallGuard:
 class LocalGuard:
     """fact about a named local / argument: want in ok|some|err|none|true|false"""
 
-    def __init__(self, varname, want, name=None):
+    def __init__(self, varname, want, name=None, variant_index=None):
         self.var = varname
         self.want = want
+        self.variant_index = variant_index
         self.name = name or ('%s is %s' % (varname, want))
 
     def matches_call(self, fn, bi, t):
@@ -1020,6 +1026,10 @@ class LocalGuard:
     def holds(self, fn, facts):
         out = []
         for a, v in facts.items():
+            if a[0] == 'discr' and self._is(fn, a[1]) and isinstance(self.want, str) and self.want.startswith('variant:') and self.variant_index is not None:
+                if v == self.variant_index:
+                    out.append(1000000)
+                continue
             if a[0] == 'ok' and self._is(fn, a[1]):
                 pol = {'ok': 1, 'some': 1, 'err': 0, 'none': 0}.get(self.want)
                 if pol is not None and v == pol:
